@@ -257,7 +257,32 @@ func tmpDir() string {
 	return d
 }
 
+// replayInfo reads seed and tier out of the witness file named by
+// VERIF_REPLAY: a replay re-executes the deterministic case list of that
+// seed and tier (the witness itself names the failing case).
+func replayInfo() (seed int64, tier string, ok bool) {
+	p := ReplayPath()
+	if p == "" {
+		return 0, "", false
+	}
+	b, err := os.ReadFile(p)
+	if err != nil {
+		return 0, "", false
+	}
+	var w struct {
+		Seed int64  `json:"seed"`
+		Tier string `json:"tier"`
+	}
+	if json.Unmarshal(b, &w) != nil {
+		return 0, "", false
+	}
+	return w.Seed, w.Tier, true
+}
+
 func envSeed() int64 {
+	if s, _, ok := replayInfo(); ok {
+		return s
+	}
 	if s := os.Getenv("VERIF_SEED"); s != "" {
 		if v, err := strconv.ParseInt(s, 10, 64); err == nil {
 			return v
@@ -268,6 +293,9 @@ func envSeed() int64 {
 
 func tierFromArgs() string {
 	t := ""
+	if _, rt, ok := replayInfo(); ok && rt != "" {
+		return rt
+	}
 	for i, a := range os.Args[1:] {
 		if a == "quick" || a == "thorough" {
 			t = a
